@@ -291,8 +291,10 @@ class P:
         k, v = self.peek()
         if k == 'num':
             self.next(); return ('lit', num(v))
-        if k == 'char' or k == 'str':
-            raise TErr(f'{self.where}: character/string literals are not supported')
+        if k == 'str':
+            self.next(); return ('str', v)      # opaque: only allowed inside error-value constructors
+        if k == 'char':
+            raise TErr(f'{self.where}: character literals are not supported')
         if v == '(' and k == 'op':
             self.next(); es = []
             trailing = False
@@ -334,7 +336,14 @@ class P:
         if v == 'loop':
             self.next(); return ('loop', self.block())
         if v == 'while':
-            self.next(); c = self.expr(nostruct=True); return ('while', c, self.block())
+            self.next()
+            if self.at('let'):
+                self.next(); pat = self.pattern(); self.expect('=')
+                scrut = self.expr(nostruct=True)
+                body = self.block()
+                # while let P = E { B }  ==  loop { if let P = E { B } else { break } }
+                return ('whilelet', ('block', [('expr', ('iflet', pat, scrut, body, ('block', [('expr', ('break',))], None)))], None))
+            c = self.expr(nostruct=True); return ('while', c, self.block())
         if v == 'for':
             self.next(); pat = self.pattern(); self.expect('in')
             it = self.expr(nostruct=True)
@@ -370,12 +379,24 @@ class P:
                 if tk[1] == open_: depth += 1
                 elif tk[1] == close: depth -= 1
                 if depth: toks.append(tk)
-            if path[-1] == 'assert':
+            if path[-1] in ('assert', 'debug_assert'):
                 sub = P(toks + [('eof', '')], self.where)
                 cond = sub.expr()
                 if not (sub.peek()[0] == 'eof' or sub.at(',')):
                     raise TErr(f'{self.where}: cannot parse assert! condition')
-                return ('assert', cond)
+                return ('assert', cond, path[-1] + '!(' + ' '.join(t[1] for t in toks[:12]) + ')')
+            if path[-1] in ('assert_ne', 'assert_eq', 'debug_assert_ne', 'debug_assert_eq'):
+                sub = P(toks + [('eof', '')], self.where)
+                a = sub.expr(); sub.expect(','); b = sub.expr()
+                op = '!=' if path[-1].endswith('_ne') else '=='
+                return ('assert', ('bin', op, a, b), path[-1] + '!(' + ' '.join(t[1] for t in toks[:12]) + ')')
+            if path[-1] == 'vec' and open_ == '[':
+                sub = P(toks + [('eof', '')], self.where)
+                a = sub.expr()
+                if sub.at(';'):
+                    sub.next(); n = sub.expr()
+                    return ('vecrep', a, n)
+                raise TErr(f'{self.where}: only `vec![x; n]` is supported')
             return ('macro', path[-1], toks)
         if self.at('{') and not nostruct and (path[-1][0].isupper()):
             self.next(); fields = []
@@ -583,9 +604,13 @@ def lname(n):
 
 class Cfg:
     """Per-variant configuration: which Rust types map to which Lean types, constants, fuel."""
-    def __init__(self, ns, da_type, consts, fuel, types, field_fault, field_rename):
+    def __init__(self, ns, da_type, consts, fuel, types, field_fault, field_rename,
+                 err='Fault', fuel_err='.fuel', assert_mode='option', err_ctors=None, places=None):
         self.ns, self.da_type, self.consts, self.fuel = ns, da_type, consts, fuel
         self.types, self.field_fault, self.field_rename = types, field_fault, field_rename
+        self.err, self.fuel_err, self.assert_mode = err, fuel_err, assert_mode
+        self.err_ctors = err_ctors or {}
+        self.places = places or {}       # method name -> True: `recv.m(E)` denotes the place recv.items[recv.offset(E)]
 
 def map_type(ty, cfg, item_ty=None):
     """Rust type string -> Lean type string."""
@@ -714,7 +739,7 @@ class FnT:
             raise TErr(f'{self.f["where"]}: unary `{e[1]}` is not supported')
         if kind == 'bin':
             op = e[1]
-            lop = {'+': '+', '-': '-', '*': '*', '^': '^^^', '&': '&&&', '|': '|||', '<<': '<<<', '>>': '>>>',
+            lop = {'+': '+', '-': '-', '*': '*', '%': '%', '^': '^^^', '&': '&&&', '|': '|||', '<<': '<<<', '>>': '>>>',
                    '==': '==', '!=': '!=', '<': '<', '<=': '≤', '>': '>', '>=': '≥', '&&': '&&', '||': '||'}.get(op)
             if lop is None: raise TErr(f'{self.f["where"]}: binary `{op}` is not supported')
             if op in ('&&', '||'):
@@ -734,7 +759,7 @@ class FnT:
                 h = type_head(self.type_of(e[1], env))
                 ren = self.cfg.field_rename.get((h, fld))
                 if ren == '': return k(r, env, ind)          # transparent field (e.g. `mapper`)
-                return k(f'{r}.{lname(ren or fld)}', env, ind)
+                return k(f'{r}.{lname(ren) if ren else self.u.fld(h, fld)}', env, ind)
             return self.tx(e[1], env, ind, kf)
         if kind == 'block':
             return self.tx_block(e, env, ind, k)
@@ -744,9 +769,12 @@ class FnT:
             lty = self.u.struct_ctor(name)
             fs = e[2]
             def ks(ts, env, ind):
-                body = ', '.join(f'{lname(f)} := {t}' for (f, _), t in zip(fs, ts))
+                body = ', '.join(f'{self.u.fld(name, f)} := {t}' for (f, _), t in zip(fs, ts))
                 return k(f'({{ {body} }} : {lty})', env, ind)
             return self.tx_list([x for _, x in fs], env, ind, ks)
+        if kind == 'try' and self.is_result_expr(e[1], env):
+            # `?` on a `Result`: errors already propagate through the binds of the one error monad
+            return self.tx(e[1], env, ind, k)
         if kind == 'try':
             # `?` on an Option in a function returning Option
             if not (self.f['ret'] or '').replace(' ', '').startswith('Option<'):
@@ -789,6 +817,28 @@ class FnT:
             return self.tx_call(e, env, ind, k)
         if kind == 'mcall':
             return self.tx_mcall(e, env, ind, k)
+        if kind == 'assert' and self.cfg.assert_mode == 'panic':
+            # a failed assertion (debug assertions are armed in the harness build) is a panic value
+            self.need_eff('assert!')
+            def kap(c, env, ind):
+                pad = '  ' * ind
+                return f'if {c} then\n{pad}  {k("()", env, ind + 1)}\n{pad}else\n{pad}  .error (.panic {lean_str(e[2])})'
+            return self.tx(e[1], env, ind, kap)
+        if kind == 'whilelet':
+            return self.emit_loop(e[1], env, ind, k, mode='for-iter')
+        if kind == 'index':
+            self.need_eff('indexing')
+            def kix(r, env, ind):
+                def kiy(t, env, ind):
+                    v = self.fresh('x')
+                    return self.bind(f'Rs.index {paren_t(r)} {paren_t(t)}', v, lambda i2: k(v, env, i2), ind)
+                return self.tx(e[2], env, ind, kiy)
+            return self.tx(e[1], env, ind, kix)
+        if kind == 'range':
+            if e[2] is None: raise TErr(f'{self.f["where"]}: open range as a value')
+            return self.tx_list([e[1], e[2]], env, ind, lambda ts, env, ind: k(f'({ts[0]}, {ts[1]})', env, ind))
+        if kind == 'vecrep':
+            return self.tx_list([e[1], e[2]], env, ind, lambda ts, env, ind: k(f'(Array.replicate {paren_t(ts[1])} {paren_t(ts[0])})', env, ind))
         if kind == 'assert':
             # `assert!(cond, …)`: a failed assertion is a panic = the function yields `none`
             if not self.panics or env.get('loop'): raise TErr(f'{self.f["where"]}: assert! in an unsupported position')
@@ -799,6 +849,11 @@ class FnT:
         if kind == 'macro':
             raise TErr(f'{self.f["where"]}: macro `{e[1]}!` is not in the supported subset')
         raise TErr(f'{self.f["where"]}: expression form `{kind}` is not in the supported subset')
+
+    def is_result_expr(self, e, env):
+        if e[0] == 'mcall' and e[2] in ('ok_or_else', 'ok_or', 'map_err'): return True
+        t = self.type_of(e, env)
+        return bool(t) and t.replace(' ', '').startswith('Result<')
 
     def tx_list(self, es, env, ind, k):
         def go(i, acc, env, ind):
@@ -855,6 +910,38 @@ class FnT:
                         return f'let {lp} := {t}\n{pad}' + go(i + 1, env2, ind)
                     return f'match {t} with\n{pad}| {lp} =>\n{pad}  ' + go(i + 1, env2, ind + 1)
                 return self.tx(init, env, ind, kl)
+            if st[0] == 'assign' and st[2] == '=' and st[1][0] == 'index' and st[1][1][0] == 'field' and st[1][1][1] == ('path', ['self']):
+                # self.<vec>[i] = v   (panics when out of range)
+                _, place, op, rhs = st
+                if not self.self_mut: raise TErr(f'{self.f["where"]}: assignment through `&self`')
+                self.need_eff('index assignment')
+                fld = lname(place[1][2])
+                def kv(t, env, ind):
+                    def ki(ix, env, ind):
+                        a2 = self.fresh('a')
+                        return self.bind(f'Rs.indexSet self.{fld} {paren_t(ix)} {paren_t(t)}', a2,
+                                         lambda i2: f'let self := {{ self with {fld} := {a2} }}\n{"  " * i2}' + go(i + 1, env, i2), ind)
+                    return self.tx(place[2], env, ind, ki)
+                return self.tx(rhs, env, ind, kv)
+            if st[0] == 'assign' and st[2] == '=' and st[1][0] == 'un' and st[1][1] == '*' and st[1][2][0] == 'mcall' \
+                    and self.as_place(st[1][2][1], env) is not None and not st[1][2][3]:
+                # *base.get_mut(E).<field>_mut() = v
+                _, place, op, rhs = st
+                pl = self.as_place(place[2][1], env)
+                fld = self.u.field_lens.get((self.u.place_elem[pl[2]], place[2][2]))
+                if fld is None: raise TErr(f'{self.f["where"]}: `{place[2][2]}` is not a verified field accessor')
+                if pl[0] != ('path', ['self']) or not self.self_mut: raise TErr(f'{self.f["where"]}: write through an immutable base')
+                def kv(t, env, ind):
+                    def kp(b, o, it, env, ind):
+                        pad = '  ' * ind
+                        return (f'let self := {{ self with items := self.items.setIfInBounds {o} {{ {it} with {self.u.fld(self.u.place_elem[pl[2]], fld)} := {t} }} }}\n{pad}' + go(i + 1, env, ind))
+                    return self.with_place(pl, env, ind, kp)
+                return self.tx(rhs, env, ind, kv)
+            if st[0] == 'expr' and st[1][0] in ('if', 'iflet') and not self.has_exit(st[1]) and i + 1 < len(stmts) + (1 if tail is not None else 0) \
+                    and self.cfg.assert_mode == 'panic':
+                # a conditional statement that cannot leave the function or a loop: computed as a value
+                # (the variables it may assign), then the rest of the block follows ONCE
+                return self.tx_join(st[1], env, ind, lambda env2, ind2: go(i + 1, env2, ind2))
             if st[0] == 'assign':
                 _, place, op, rhs = st
                 def ka(t, env, ind):
@@ -870,13 +957,52 @@ class FnT:
             raise TErr(f'{self.f["where"]}: statement form {st[0]}')
         return go(0, env, ind)
 
+    def has_exit(self, e, in_loop=False):
+        if isinstance(e, tuple):
+            if e and e[0] in ('loop', 'for', 'whilelet', 'while'):
+                return any(self.has_exit(x, True) for x in e[1:])
+            if e and e[0] == 'return': return True
+            if e and e[0] in ('break', 'continue'): return not in_loop
+            if e and e[0] == 'try' and not (e[1][0] == 'mcall' and e[1][2] in ('ok_or_else', 'ok_or', 'map_err')): return True
+            if e and e[0] == 'call' and e[1][0] == 'path' and e[1][1][-1] == 'Err': return True
+            return any(self.has_exit(x, in_loop) for x in e[1:])
+        if isinstance(e, list): return any(self.has_exit(x, in_loop) for x in e)
+        return False
+
+    def assigned_vars(self, e, env, acc):
+        """mutable variables (incl. `self`) a statement may assign — conservative"""
+        if isinstance(e, tuple):
+            if e and e[0] == 'assign':
+                pl = e[1]
+                if pl[0] == 'path' and len(pl[1]) == 1: acc.add(pl[1][0])
+                else: acc.add('self')
+            if e and e[0] == 'mcall':
+                if e[2] == 'replace' and e[1][0] == 'path': acc.add(e[1][1][0])
+                names = set(); self.names_in(e[1], names)
+                if 'self' in names and self.self_mut: acc.add('self')
+            if e and e[0] in ('loop', 'for', 'whilelet', 'while'): acc.add('self') if self.self_mut else None
+            for x in e[1:]: self.assigned_vars(x, env, acc)
+        elif isinstance(e, list):
+            for x in e: self.assigned_vars(x, env, acc)
+
+    def tx_join(self, cond_e, env, ind, rest):
+        acc = set(); self.assigned_vars(cond_e, env, acc)
+        vs = [v for v in (['self'] if 'self' in acc else []) + [m for m in env['muts'] if m in acc and m != 'self']]
+        tup = self.tuple_of(vs)
+        pad = '  ' * ind
+        inner = self.tx(cond_e, env, ind + 1, lambda t, e2, i2: self.ok(tup))
+        if self.eff:
+            ty = f'Except {self.cfg.err} {paren(self.tuple_ty(vs, env))}'
+            return (f'match ((\n{pad}  {inner}) : {ty}) with\n{pad}| .error e => .error e\n{pad}| .ok {tup} =>\n{pad}  ' + rest(env, ind + 1))
+        return f'match (\n{pad}  {inner}) with\n{pad}| {tup} =>\n{pad}  ' + rest(env, ind + 1)
+
     def leave(self, env, outer_vars):
         # variables declared in the block go out of scope (mutations of outer variables stay)
         return dict(env, vars=[v for v in env['vars'] if v in outer_vars or v in env['muts']])
 
     def place_read(self, place, env):
         if place[0] == 'path' and len(place[1]) == 1: return lname(place[1][0])
-        if place[0] == 'field' and place[1] == ('path', ['self']): return f'self.{lname(place[2])}'
+        if place[0] == 'field' and place[1] == ('path', ['self']): return f'self.{self.u.fld(self.f["target"], place[2])}'
         raise TErr(f'{self.f["where"]}: unsupported assignment target')
 
     def place_write(self, place, t, env, ind):
@@ -887,7 +1013,7 @@ class FnT:
             return f'let {lname(n)} := {t}\n{pad}'
         if place[0] == 'field' and place[1] == ('path', ['self']):
             if not self.self_mut: raise TErr(f'{self.f["where"]}: assignment through `&self`')
-            return f'let self := {{ self with {lname(place[2])} := {t} }}\n{pad}'
+            return f'let self := {{ self with {self.u.fld(self.f["target"], place[2])} := {t} }}\n{pad}'
         raise TErr(f'{self.f["where"]}: unsupported assignment target')
 
     # ---- exits
@@ -899,6 +1025,7 @@ class FnT:
         return self.ok(val)
     def exit_break(self, env):
         lp = env.get('loop')
+        if lp and lp.get('plain'): return f'.ok {self.tuple_of(lp["carried"])}'
         if not lp or not lp['ctl']: raise TErr(f'{self.f["where"]}: `break` outside a supported loop')
         return f'.ok (.done {self.tuple_of(lp["carried"])})'
     def exit_continue(self, env):
@@ -931,6 +1058,7 @@ class FnT:
 
     def has_effect(self, e):
         """conservative: does evaluating e involve a checked (fault) operation or a loop?"""
+        if self.cfg.assert_mode == 'panic' and self.u.body_effect(e): return True
         if isinstance(e, tuple):
             if e and e[0] in ('loop', 'for', 'while', 'return', 'break', 'try'): return True
             if e and e[0] == 'mcall':
@@ -963,6 +1091,10 @@ class FnT:
             # stateful iterator place: loop { if let Some(pat) = place.next() { body } else { break } }
             inner = ('iflet', ('penum', ['Some'], [pat]), ('mcall', it[1], 'next', []), body, ('block', [('expr', ('break',))], None))
             return self.emit_loop(('block', [('expr', inner)], None), env, ind, k, mode='for-iter')
+        if it[0] == 'range' and it[2] is not None:
+            # `for x in a..b`: structural recursion over the list a, a+1, …, b-1
+            return self.tx_list([it[1], it[2]], env, ind, lambda ts, env, ind:
+                                self.emit_loop(body, env, ind, k, mode='list', list_term=f'(Rs.rangeList {paren_t(ts[0])} {paren_t(ts[1])})', item_pat=pat, it_expr=('lit', 0)))
         # list-valued iterable: structural recursion
         return self.tx(it, env, ind, lambda lt, env, ind: self.emit_loop(body, env, ind, k, mode='list', list_term=lt, item_pat=pat, it_expr=it))
 
@@ -975,45 +1107,51 @@ class FnT:
         if self.self_mut and 'self' in used: carried = ['self'] + [c for c in carried if c != 'self']
         caps = [v for v in env['vars'] if v in used and v not in carried]
         if 'self' in used and 'self' not in carried and self.f['selfkind']: caps = ['self'] + [c for c in caps if c != 'self']
-        ctl = mode != 'loop'
+        # a loop that cannot return from the function yields just its carried variables ("plain")
+        plain = mode != 'loop' and not self.has_exit(body, True)
+        ctl = mode != 'loop' and not plain
         R = self.ret_lean_type()
-        resT = f'Ctl {paren(R)} {paren(self.tuple_ty(carried, env))}' if ctl else R
+        resT = f'Ctl {paren(R)} {paren(self.tuple_ty(carried, env))}' if ctl else (self.tuple_ty(carried, env) if plain else R)
         cap_sig = ' '.join(f'({lname(c)} : {self.var_lean_type(c, env)})' for c in caps)
         car_tys = [self.var_lean_type(c, env) for c in carried]
         def recurse(env2, first='fuel'):
             args = ' '.join(lname(c) for c in caps + [])
             cars = ' '.join(lname(c) for c in carried)
             return f'{fname} {args} {first} {cars}'.replace('  ', ' ').rstrip()
-        benv = dict(env, loop=dict(ctl=ctl, carried=carried, recurse=None))
+        benv = dict(env, loop=dict(ctl=ctl, plain=plain, carried=carried, recurse=None))
         if mode == 'list':
             elem_ty = self.list_elem_type(it_expr, env)
             lp, benv2 = self.bind_pat(item_pat, benv, elem_ty)
-            benv2['loop'] = dict(ctl=ctl, carried=carried, recurse=lambda e2: recurse(e2, 'rest'))
+            benv2['loop'] = dict(ctl=ctl, plain=plain, carried=carried, recurse=lambda e2: recurse(e2, 'rest'))
             body_txt = self.tx(body, benv2, 3, lambda t, e2, i2: recurse(e2, 'rest'))
             elem_lty = map_type(elem_ty, self.cfg)
-            sig = f'def {fname} {{V : Type}} {cap_sig} : List {paren(elem_lty)} → ' + ''.join(f'{paren(t)} → ' for t in car_tys) + f'Except Fault {paren(resT)}'
+            vb = '{V : Type} ' if re.search(r'\bV\b', cap_sig + ' '.join(car_tys) + resT) else ''
+            sig = f'def {fname} {vb}{cap_sig} : List {paren(elem_lty)} → ' + ''.join(f'{paren(t)} → ' for t in car_tys) + f'Except {self.cfg.err} {paren(resT)}'
             wild = ' '.join(lname(c) for c in carried)
             d = (f'{sig}\n  | [], {", ".join(lname(c) for c in carried) if carried else ""}'.rstrip(', ') +
-                 f' => .ok (.done {self.tuple_of(carried)})\n'
+                 f' => .ok {"(.done " + self.tuple_of(carried) + ")" if ctl else self.tuple_of(carried)}\n'
                  f'  | {lp} :: rest{"".join(", " + lname(c) for c in carried)} =>\n      {body_txt}\n')
             self.loops.append(d)
             call = f'{fname} {" ".join(lname(c) for c in caps)} {list_term} {" ".join(lname(c) for c in carried)}'.replace('  ', ' ').rstrip()
         else:
             benv['loop']['recurse'] = lambda e2: recurse(e2)
             body_txt = self.tx(body, benv, 3, lambda t, e2, i2: recurse(e2))
-            sig = f'def {fname} {{V : Type}} {cap_sig} : Nat → ' + ''.join(f'{paren(t)} → ' for t in car_tys) + f'Except Fault {paren(resT)}'
+            vb = '{V : Type} ' if re.search(r'\bV\b', cap_sig + ' '.join(car_tys) + resT) else ''
+            sig = f'def {fname} {vb}{cap_sig} : Nat → ' + ''.join(f'{paren(t)} → ' for t in car_tys) + f'Except {self.cfg.err} {paren(resT)}'
             wilds = ''.join(', _' for _ in carried)
-            d = (f'{sig}\n  | 0{wilds} => .error .fuel\n'
+            d = (f'{sig}\n  | 0{wilds} => .error {self.cfg.fuel_err}\n'
                  f'  | fuel + 1{"".join(", " + lname(c) for c in carried)} =>\n      {body_txt}\n')
             self.loops.append(d)
             fuel = self.cfg.fuel.get(fname)
             if fuel is None: raise TErr(f'{self.f["where"]}: no fuel expression configured for {fname}')
             call = f'{fname} {" ".join(lname(c) for c in caps)} ({fuel}) {" ".join(lname(c) for c in carried)}'.replace('  ', ' ').rstrip()
         pad = '  ' * ind
+        vs = self.tuple_of(carried)
+        if plain:
+            return f'match {call} with\n{pad}| .error e => .error e\n{pad}| .ok {vs} =>\n{pad}  ' + k('()', env, ind + 1)
         if not ctl:
             # diverging loop: its result is the function result; the continuation is dead code
             return call
-        vs = self.tuple_of(carried)
         return (f'match {call} with\n{pad}| .error e => .error e\n{pad}| .ok (.ret r) => .ok r\n'
                 f'{pad}| .ok (.done {vs}) =>\n{pad}  ' + k('()', env, ind + 1))
 
@@ -1024,11 +1162,15 @@ class FnT:
             if it[2] == 'enumerate': return f'(usize, {self.list_elem_type(it[1], env)})'
             if it[2] == 'chars': return 'char'
             if it[2] in ('iter', 'as_ref', 'as_bytes', 'copied'): return self.list_elem_type(it[1], env)
+        if it[0] == 'lit': return 'u32'
         return 'u8'
 
     def ret_lean_type(self):
         ret = self.f['ret']
+        m = re.fullmatch(r'\s*Result\s*<(.*)>\s*', ret or '')
+        if m: ret = m.group(1).strip()
         if ret and ret.strip() == 'Self': ret = self.f['target']
+        if ret and ret.replace(' ', '') == '()': ret = None
         r = map_type(ret, self.cfg, self.f['item_ty']) if ret else 'Unit'
         r = f'{paren(r)} × {paren(self.self_ty)}' if self.self_mut else r
         return f'Option {paren(r)}' if self.panics else r
@@ -1044,6 +1186,15 @@ class FnT:
             return self.tx(args[0], env, ind, k)
         if name == 'NonZeroU32::new':
             return self.tx(args[0], env, ind, lambda t, env, ind: k(f'(Rs.nonZero {t})', env, ind))
+        if name == 'Ok':
+            # only in result position (checked by check_result_positions): the value of the function
+            if not args: return k('()', env, ind)
+            return self.tx(args[0], env, ind, k)
+        if name == 'Err':
+            self.need_eff('Err')
+            return self.tx_errval(args[0], env, ind)
+        if len(path) == 2 and path[1] == 'default' and not args and path[0] in self.u.default_structs:
+            return k(f'{self.u.struct_short(path[0])}.default', env, ind)
         if name == 'char::from_u32_unchecked':
             def kc(t, env, ind):
                 v = self.fresh('ch')
@@ -1071,6 +1222,14 @@ class FnT:
             return f'({self.u.struct_short(h)}.toIter (V := V) {paren_t(t)})'
         return t
 
+    def tx_errval(self, e, env, ind):
+        """an error value expression (`DaachorseError::automaton_scale(…)`) -> `.error <ctor>`"""
+        while e[0] == 'block' and not e[1] and e[2] is not None: e = e[2]
+        if e[0] == 'call' and e[1][0] == 'path':
+            ctor = self.cfg.err_ctors.get('::'.join(e[1][1]))
+            if ctor: return f'.error {ctor}'
+        raise TErr(f'{self.f["where"]}: unsupported error value')
+
     def need_eff(self, what):
         if not self.eff: raise TErr(f'{self.f["where"]}: internal: `{what}` in a function classified as pure')
 
@@ -1078,6 +1237,9 @@ class FnT:
         recv, m, args = e[1], e[2], e[3]
         recv_ty = self.type_of(recv, env)
         h = type_head(recv_ty)
+        pl = self.as_place(recv, env)
+        if pl is not None:
+            return self.tx_place_call(pl, m, args, env, ind, k)
         # --- user functions of the translation unit, resolved by receiver type
         if (h, m) in self.u.fns and (h, m) in self.u.selected:
             callee = self.u.fns[(h, m)]
@@ -1135,6 +1297,51 @@ class FnT:
             def kr(r, env, ind):
                 return self.tx_list(args, env, ind, lambda ts, env, ind: k(fmt.format(r=r, a=ts), env, ind))
             return self.tx(recv, env, ind, kr)
+        if m == 'unwrap' and not args:
+            self.need_eff('unwrap')
+            if recv[0] == 'call' and recv[1][0] == 'path' and '::'.join(recv[1][1]) == 'u32::try_from':
+                def ku(t, env, ind):
+                    v = self.fresh('n')
+                    return self.bind(f'Rs.u32TryFromUnwrap {paren_t(t)}', v, lambda i2: k(v, env, i2), ind)
+                return self.tx(recv[2][0], env, ind, ku)
+            def kr(r, env, ind):
+                pad = '  ' * ind
+                v = self.fresh('u')
+                return (f'match {r} with\n{pad}| none => .error (.panic "unwrap on None")\n{pad}| some {v} =>\n{pad}  ' + k(v, env, ind + 1))
+            return self.tx(recv, env, ind, kr)
+        if m == 'ok_or_else' and len(args) == 1 and args[0][0] == 'closure' and not args[0][1]:
+            self.need_eff('ok_or_else')
+            def kr(r, env, ind):
+                pad = '  ' * ind
+                v = self.fresh('v')
+                return (f'match {r} with\n{pad}| none => {self.tx_errval(args[0][2], env, ind)}\n{pad}| some {v} =>\n{pad}  ' + k(v, env, ind + 1))
+            return self.tx(recv, env, ind, kr)
+        if m == 'then' and len(args) == 1 and args[0][0] == 'closure' and not args[0][1]:
+            def kr(c, env, ind):
+                pad = '  ' * ind
+                return (f'if {c} then\n{pad}  ' + self.tx(args[0][2], env, ind + 1, lambda t, e3, i3: k(f'(some {t})', env, i3)) +
+                        f'\n{pad}else\n{pad}  ' + k('none', env, ind + 1))
+            return self.tx(recv, env, ind, kr)
+        if m == 'find' and len(args) == 1 and args[0][0] == 'closure' and recv[0] == 'range' and len(args[0][1]) == 1:
+            # `(a..b).find(|&x| pred)`: first x in the range satisfying the (possibly panicking) predicate
+            cl = args[0]
+            if self.assigns_any(cl[2]): raise TErr(f'{self.f["where"]}: assignment inside a `find` closure')
+            def kr(ts, env, ind):
+                lp, env2 = self.bind_pat(cl[1][0], env, 'u32')
+                body = self.tx(cl[2], env2, ind + 2, lambda t, e3, i3: self.ok(t))
+                v = self.fresh('f')
+                call = f'Rs.rangeFindM {paren_t(ts[0])} {paren_t(ts[1])} (fun {lp} =>\n{"  " * (ind + 2)}{body})'
+                if self.eff:
+                    return self.bind(call, v, lambda i2: k(v, env, i2), ind)
+                return k(f'({call})', env, ind)
+            return self.tx_list([recv[1], recv[2]], env, ind, kr)
+        if m == 'contains' and len(args) == 1:
+            def kr(r, env, ind):
+                return self.tx(args[0], env, ind, lambda t, env, ind: k(f'(decide ({r}.1 ≤ {t}) && decide ({t} < {r}.2))', env, ind))
+            return self.tx(recv, env, ind, kr)
+        pl = self.as_place(recv, env)
+        if pl is not None:
+            return self.tx_place_call(pl, m, args, env, ind, k)
         if m == 'get' and len(args) == 0:         # NonZeroU32::get / U24::get
             return self.tx(recv, env, ind, k)
         if m == 'get' and len(args) == 1:         # slice::get
@@ -1190,6 +1397,56 @@ class FnT:
             return self.tx(recv, env, ind, kr)
         raise TErr(f'{self.f["where"]}: method `.{m}()` on `{recv_ty}` is not in the supported subset')
 
+    def as_place(self, e, env):
+        """`base.get_ref(E)` / `base.get_mut(E)` denote the element base.items[base.offset(E)]
+        (the bodies of these two accessors are verified to have exactly that shape)."""
+        if e[0] == 'mcall' and e[2] in self.cfg.places and len(e[3]) == 1:
+            h = type_head(self.type_of(e[1], env))
+            if (h, e[2]) in self.u.place_fns:
+                return (e[1], e[3][0], h, e[2] == self.cfg.places.get('__mut__'))
+        return None
+
+    def with_place(self, pl, env, ind, k):
+        """evaluates the offset of a place and reads the element: k(base, off, item)"""
+        base, idx_e, h, _ = pl
+        def kb(b, env, ind):
+            def ki(t, env, ind):
+                o, it = self.fresh('o'), self.fresh('it')
+                off_fn = self.u.lean_fn_name(self.u.fns[(h, 'offset')])
+                return self.bind(f'{off_fn} {b} {paren_t(t)}', o, lambda i2:
+                                 self.bind(f'Rs.index {b}.items {o}', it, lambda i3: k(b, o, it, env, i3), i2), ind)
+            return self.tx(idx_e, env, ind, ki)
+        self.need_eff('place')
+        return self.tx(base, env, ind, kb)
+
+    def tx_place_call(self, pl, m, args, env, ind, k):
+        base, idx_e, h, is_mut = pl
+        elem = self.u.place_elem[h]
+        key = (elem, m)
+        if key not in self.u.selected: raise TErr(f'{self.f["where"]}: method `.{m}()` of `{elem}` is not translated')
+        callee = self.u.fns[key]; cname = self.u.lean_fn_name(callee)
+        if self.u.effectful[key]: raise TErr(f'{self.f["where"]}: effectful element method `{m}`')
+        def kp(b, o, it, env, ind):
+            def ka(ts, env, ind):
+                call = f'{cname} {it} {" ".join(paren_t(t) for t in ts)}'.rstrip()
+                if callee['selfkind'] == 'mut':
+                    if base != ('path', ['self']) or not self.self_mut:
+                        raise TErr(f'{self.f["where"]}: `&mut` element method through an immutable base')
+                    pad = '  ' * ind
+                    v, it2 = self.fresh('r'), self.fresh('it')
+                    return (f'match {call} with\n{pad}| ({v}, {it2}) =>\n{pad}  let self := {{ self with items := self.items.setIfInBounds {o} {it2} }}\n{pad}  '
+                            + k(v, env, ind + 1))
+                return k(f'({call})', env, ind)
+            return self.tx_list(args, env, ind, ka)
+        return self.with_place(pl, env, ind, kp)
+
+    def assigns_any(self, e):
+        if isinstance(e, tuple):
+            if e and e[0] == 'assign': return True
+            return any(self.assigns_any(x) for x in e[1:])
+        if isinstance(e, list): return any(self.assigns_any(x) for x in e)
+        return False
+
     def place_write_expr(self, place, t, env, ind):
         """writes back the new value of a place that was the receiver of a `&mut self` call"""
         pad = '  ' * ind
@@ -1199,11 +1456,42 @@ class FnT:
             return self.place_write(place, t, env, ind)
         raise TErr(f'{self.f["where"]}: `&mut self` call on an unsupported place')
 
+    def check_result_positions(self, e, tail):
+        """`Ok(..)` / `Err(..)` are translated as "the value of the function": they may only occur as the
+        operand of `return` or in tail position."""
+        if isinstance(e, list):
+            for x in e: self.check_result_positions(x, False)
+            return
+        if not isinstance(e, tuple) or not e: return
+        k = e[0]
+        if k == 'call' and e[1][0] == 'path' and e[1][1][-1] in ('Ok', 'Err'):
+            if not tail: raise TErr(f'{self.f["where"]}: `{e[1][1][-1]}(..)` outside result position')
+            self.check_result_positions(e[2], False); return
+        if k == 'block':
+            self.check_result_positions(e[1], False)
+            if e[2] is not None: self.check_result_positions(e[2], tail)
+            return
+        if k == 'if':
+            self.check_result_positions(e[1], False); self.check_result_positions(e[2], tail)
+            if e[3] is not None: self.check_result_positions(e[3], tail)
+            return
+        if k == 'iflet':
+            self.check_result_positions(e[2], False); self.check_result_positions(e[3], tail)
+            if e[4] is not None: self.check_result_positions(e[4], tail)
+            return
+        if k == 'return':
+            if e[1] is not None: self.check_result_positions(e[1], True)
+            return
+        if k == 'expr':
+            self.check_result_positions(e[1], False); return
+        for x in e[1:]: self.check_result_positions(x, False)
+
     # ---- the whole function
     def run(self):
         f = self.f
         p = P(f['body_toks'], f['where'])
         body = p.block()
+        self.check_result_positions(body, True)
         env = dict(vars=[], muts=[], types={}, loop=None)
         sig = []
         if f['selfkind']:
@@ -1214,13 +1502,16 @@ class FnT:
             if mut: env['muts'].append(n)
             sig.append(f'({lname(n)} : {map_type(ty, self.cfg, f["item_ty"])})')
         R = self.ret_lean_type()
-        rt = f'Except Fault {paren(R)}' if self.eff else R
+        rt = f'Except {self.cfg.err} {paren(R)}' if self.eff else R
         text = self.tx(body, env, 1, lambda t, env, ind: self.exit_return(t, env))
         out = ''.join(l + '\n' for l in self.loops)
         out += f'/-- `{f["target"]}::{f["name"]}` ({f["where"].split(":")[0]}) -/\n'
         vb = '{V : Type} ' if re.search(r'\bV\b', ' '.join(sig) + rt) else ''
         out += f'def {self.lean_name} {vb}{" ".join(sig)} : {rt} :=\n  {text}\n'
         return out
+
+def lean_str(t):
+    return '"' + t.replace('\\', '').replace('"', "'") + '"'
 
 def paren_t(t):
     t = t.strip()
@@ -1242,6 +1533,8 @@ EFFECT_CALLS = {'from_u32_unchecked'}
 
 # method name -> (arity, Lean format)   [{r} receiver, {a[i]} arguments]
 SIMPLE_METHODS = {
+    'checked_mul': (1, '(Rs.checkedMulU32 {r} {a[0]})'), 'saturating_sub': (1, '({r} - {a[0]})'),
+    'wrapping_sub': (1, '(Rs.wrappingSubU32 {r} {a[0]})'), 'len': (0, '{r}.size'),
     'base': (0, '(Rs.St.base {r})'), 'check': (0, '{r}.check'), 'fail': (0, '{r}.fail'),
     'output_pos': (0, '(Rs.St.outputPos {r})'),
     'length': (0, '{r}.length'), 'value': (0, '{r}.value'), 'parent': (0, '(Rs.Out.parent {r})'),
@@ -1266,13 +1559,19 @@ class Unit:
             if key not in self.fns: raise TErr(f'function {key[0]}::{key[1]} not found in {files}')
         self.struct_types = struct_types
         self.defs = {}
+        self.default_structs, self.place_fns, self.place_elem, self.field_lens = [], set(), {}, {}
+        self.rename_clashes = False
         # effect analysis: fixpoint over the selected functions
         self.bodies = {}
         for key in selected:
             f = self.fns[key]
             self.bodies[key] = P(f['body_toks'], f['where']).block()
+        self.recompute_effects()
+
+    def recompute_effects(self):
+        selected, cfg = self.selected, self.cfg
         self.effectful = {key: False for key in selected}
-        self.panics = {key: self.has_assert(self.bodies[key]) for key in selected}
+        self.panics = {key: (self.has_assert(self.bodies[key]) and cfg.assert_mode == 'option') for key in selected}
         changed = True
         while changed:
             changed = False
@@ -1283,7 +1582,12 @@ class Unit:
 
     def body_effect(self, e):
         if isinstance(e, tuple):
-            if e and e[0] in ('loop', 'for', 'while'): return True
+            if e and e[0] in ('loop', 'for', 'while', 'whilelet'): return True
+            if self.cfg.assert_mode == 'panic':
+                if e and e[0] in ('assert', 'index'): return True
+                if e and e[0] == 'mcall' and (e[2] in ('unwrap', 'ok_or_else') or e[2] in self.cfg.places): return True
+                if e and e[0] == 'call' and e[1][0] == 'path' and e[1][1][-1] == 'Err': return True
+                if e and e[0] == 'assign' and e[1][0] in ('index', 'un'): return True
             if e and e[0] == 'mcall':
                 if e[2] in EFFECT_METHODS: return True
                 for key, val in self.effectful.items():
@@ -1300,6 +1604,9 @@ class Unit:
         if isinstance(e, list): return any(self.has_assert(x) for x in e)
         return False
 
+    def fld(self, struct, field):
+        return lname(field) + ('_' if self.rename_clashes and struct and (struct, field) in self.selected else '')
+
     def lean_fn_name(self, f):
         return f'{self.struct_short(f["target"])}.{lname(f["name"])}'
     def struct_short(self, name):
@@ -1313,16 +1620,47 @@ class Unit:
         if name in self.cfg.types: return self.cfg.types[name]
         raise TErr(f'struct literal of `{name}` is not in the supported subset')
 
-    def gen_structs(self, names):
+    def verify_accessor(self, target, name, expected, what):
+        f = self.fns.get((target, name))
+        got = ' '.join(t[1] for t in f['body_toks']) if f else None
+        if got != expected:
+            raise TErr(f'{target}::{name} no longer has the shape the translator relies on ({what}): `{got}`')
+
+    def declare_places(self, container, elem, ref_fn, mut_fn, lenses, defaults):
+        """`container.ref_fn(i)` / `container.mut_fn(i)` are the element container.items[container.offset(i)];
+        `elem.<lens>()` is `&mut self.<field>`; `elem::default()` is the derived all-zero value."""
+        self.verify_accessor(container, ref_fn, '{ & self . items [ self . offset ( idx ) ] }', 'element read accessor')
+        self.verify_accessor(container, mut_fn, '{ let offset = self . offset ( idx ) ; & mut self . items [ offset ] }', 'element write accessor')
+        self.place_fns |= {(container, ref_fn), (container, mut_fn)}
+        self.place_elem[container] = elem
+        for lens, fld in lenses.items():
+            self.verify_accessor(elem, lens, '{ & mut self . ' + fld + ' }', 'field accessor')
+            self.field_lens[(elem, lens)] = fld
+        self.default_structs += defaults
+
+    def gen_default(self, n, src):
+        """`#[derive(Default)]`: every field zero / false / None"""
+        if not re.search(r'#\[derive\([^)]*\bDefault\b[^)]*\)\]\s*pub struct ' + n + r'\b', src):
+            raise TErr(f'struct {n} no longer derives Default')
+        vals = []
+        for fld, ty in self.structs[n].items():
+            lt = map_type(ty, self.cfg)
+            vals.append(f'{self.fld(n, fld)} := ' + {'Nat': '0', 'Bool': 'false'}.get(lt, 'none' if lt.startswith('Option') else '?'))
+        if any(v.endswith('?') for v in vals): raise TErr(f'struct {n}: no default value for a field type')
+        text = f'/-- `{n}::default()` (derived) -/\ndef {self.struct_short(n)}.default : {self.struct_lean_type(n)} := {{ {", ".join(vals)} }}\n\n'
+        self.defs[f'{self.cfg.ns}.{self.struct_short(n)}.default'] = text
+        return text
+
+    def gen_structs(self, names, with_v=True):
         out = ''
         for n in names:
             start = len(out)
             self.defs[f'{self.cfg.ns}.struct.{self.struct_short(n)}'] = None
             fields = self.structs.get(n)
             if fields is None: raise TErr(f'struct {n} not found')
-            out += f'/-- `struct {n}` -/\nstructure {self.struct_short(n)} (V : Type) where\n'
+            out += f'/-- `struct {n}` -/\nstructure {self.struct_short(n)}{" (V : Type)" if with_v else ""} where\n'
             for fld, ty in fields.items():
-                out += f'  {lname(fld)} : {map_type(ty, self.cfg)}\n'
+                out += f'  {self.fld(n, fld)} : {map_type(ty, self.cfg)}\n'
             out += '\n'
             if n in self.iter_structs:
                 if list(fields) != ['inner', 'pos']: raise TErr(f'struct {n}: a slice iterator is expected to have the fields inner, pos')
@@ -1341,7 +1679,7 @@ class Unit:
 
 HEADER = '''/- GENERATED by /verif/tools/rs2lean.py from /repo's current source ({files}). Do not edit.
    Translation rules and their trusted base: see the header of tools/rs2lean.py and Daac/Gen/Prelude.lean. -/
-import Daac.Gen.Prelude
+import {prelude}
 set_option linter.unusedVariables false
 namespace Daac.Gen.{ns}
 open Daac
@@ -1385,7 +1723,7 @@ def main():
     cfgb = Cfg('B', 'DA V', consts, b_fuel, b_types, {'states': 'oobStates', 'outputs': 'oobOutputs'},
                {('DoubleArrayAhoCorasick', 'match_kind'): 'kind'})
     ub = Unit(repo, ['src/lib.rs', 'src/bytewise.rs', 'src/bytewise/iter.rs'], b_sel, cfgb, b_structs, ['U8SliceIterator'])
-    textb = HEADER.format(files='src/bytewise.rs, src/bytewise/iter.rs', ns='B')
+    textb = HEADER.format(files='src/bytewise.rs, src/bytewise/iter.rs', ns='B', prelude='Daac.Gen.Prelude')
     textb += ub.gen_structs(['U8SliceIterator', 'FindIterator', 'FindOverlappingIterator', 'FindOverlappingNoSuffixIterator', 'LestmostFindIterator'])
     textb += ub.gen(b_sel)
     textb += 'end Daac.Gen.B\n'
@@ -1418,13 +1756,37 @@ def main():
                {('CharwiseDoubleArrayAhoCorasick', 'mapper'): '', ('CodeMapper', 'table'): 'mapTable',
                 ('CharwiseDoubleArrayAhoCorasick', 'match_kind'): 'kind'})
     uc = Unit(repo, ['src/lib.rs', 'src/charwise.rs', 'src/charwise/mapper.rs', 'src/charwise/iter.rs'], c_sel, cfgc, c_structs, ['StrIterator'])
-    textc = HEADER.format(files='src/charwise.rs, src/charwise/mapper.rs, src/charwise/iter.rs', ns='C')
+    textc = HEADER.format(files='src/charwise.rs, src/charwise/mapper.rs, src/charwise/iter.rs', ns='C', prelude='Daac.Gen.Prelude')
     textc += uc.gen_structs(['StrIterator', 'CharWithEndOffsetIterator', 'FindIterator', 'FindOverlappingIterator', 'FindOverlappingNoSuffixIterator', 'LestmostFindIterator'])
     textc += uc.gen(c_sel)
     textc += 'end Daac.Gen.C\n'
     results['SearchC.lean'] = textc
+    # ---------------- construction side: the free-slot bookkeeping (src/build_helper.rs)
+    h_structs = {'BuildHelper': ('BuildHelper', 'BuildHelper'), 'ListItem': ('ListItem', 'ListItem'), 'VacantIter': ('VacantIter', 'VacantIter')}
+    h_types = {'BuildHelper': 'BuildHelper', 'ListItem': 'ListItem', 'VacantIter': 'VacantIter', 'Range': 'Nat × Nat', 'Vec': 'Array ListItem'}
+    h_sel = [('ListItem', m) for m in ('next', 'prev', 'is_used_base', 'is_used_index', 'use_base', 'use_index')] + \
+            [('BuildHelper', m) for m in ('new', 'num_elements', 'active_block_range', 'active_index_range', 'capacity', 'offset',
+                                          'is_used_base', 'is_used_index', 'unused_base_in_block', 'use_base', 'use_index',
+                                          'dropped_block', 'reset', 'push_block', 'vacant_iter')] + [('VacantIter', 'next')]
+    h_consts = {'u32::MAX': '4294967295'}
+    cfgh = Cfg('H', 'BuildHelper', h_consts, {'BuildHelper.push_block.loop0': 'self.block_len + 1'}, h_types, {}, 
+               {('Range', 'start'): '1', ('Range', 'end'): '2'},
+               err='BuildErr', fuel_err='(.panic "closing a block does not terminate")', assert_mode='panic',
+               err_ctors={'DaachorseError::automaton_scale': '.automatonScale'},
+               places={'get_ref': True, 'get_mut': True, '__mut__': 'get_mut'})
+    uh = Unit(repo, ['src/build_helper.rs'], h_sel, cfgh, h_structs)
+    src_h = open(os.path.join(repo, 'src/build_helper.rs'), encoding='utf-8').read()
+    uh.rename_clashes = True
+    uh.declare_places('BuildHelper', 'ListItem', 'get_ref', 'get_mut', {'next_mut': 'next', 'prev_mut': 'prev'}, ['ListItem'])
+    uh.recompute_effects()
+    texth = HEADER.format(files='src/build_helper.rs', ns='H', prelude='Daac.Gen.PreludeBuild')
+    texth += uh.gen_structs(['ListItem', 'BuildHelper', 'VacantIter'], with_v=False)
+    texth += uh.gen_default('ListItem', src_h)
+    texth += uh.gen(h_sel)
+    texth += 'end Daac.Gen.H\n'
+    results['Helper.lean'] = texth
     import hashlib, json
-    manifest = {k: hashlib.sha1(v.encode()).hexdigest()[:16] for u in (ub, uc) for k, v in u.defs.items()}
+    manifest = {k: hashlib.sha1(v.encode()).hexdigest()[:16] for u in (ub, uc, uh) for k, v in u.defs.items()}
     results['search_defs.json'] = json.dumps(manifest, indent=1, sort_keys=True) + '\n'
     for name, text in results.items():
         path = os.path.join(outdir, name)
